@@ -796,8 +796,10 @@ pub fn assert_slippage_tolerance(
         let deposit_amounts: Vec<Uint256> =
             deposits.iter().map(|coin| coin.amount.into()).collect();
 
-        // Sort assets by denom to ensure the order of the assets in the pool is the same as the
-        // deposits, which are sorted previously
+        // Sort a copy of the assets by denom to ensure the order matches the deposits, which are
+        // sorted previously. The caller's vector must keep the pool's own asset order, as it is
+        // saved back into the pool and asset_decimals is indexed by that order
+        let mut pool_assets = pool_assets.to_vec();
         pool_assets.sort_by(|a, b| a.denom.cmp(&b.denom));
 
         let pools: Vec<Uint256> = pool_assets.iter().map(|coin| coin.amount.into()).collect();
@@ -805,7 +807,7 @@ pub fn assert_slippage_tolerance(
         // Ensure each prices are not dropped as much as slippage tolerance rate
         match pool_type {
             PoolType::StableSwap { amp: amp_factor } => {
-                let d_initial = compute_d(&amp_factor, pool_assets).unwrap();
+                let d_initial = compute_d(&amp_factor, &pool_assets).unwrap();
                 let final_pool_assets = add_coins(pool_assets.to_vec(), deposits.to_vec())?;
                 let d_final = compute_d(&amp_factor, &final_pool_assets).unwrap();
 
